@@ -101,6 +101,11 @@ impl XWorld {
     }
 }
 
+thread_local! {
+    /// the second map request of the operation in progress is set to fail (nested form wanted)
+    static NEST: std::cell::Cell<bool> = const { std::cell::Cell::new(false) };
+}
+
 pub struct Xen;
 pub static XEN: Xen = Xen;
 
@@ -127,6 +132,7 @@ impl Scenario for Xen {
         let kind = [Kind::GrantOnDemand, Kind::GrantOnDemand, Kind::GrantAdvance, Kind::Foreign, Kind::Unix][cx().a(5) as usize];
         let mut w = XWorld::new(kind);
         let nops = 1 + cx().a(10) as usize;
+        let mut unmap_ever = false;
         let mut log: Vec<String> = Vec::new();
         let base_windows = cx().sys.live_count();
         let base_grants = cx().sys.xen.as_ref().unwrap().live_grants();
@@ -137,15 +143,34 @@ impl Scenario for Xen {
             }
             // now and then make the next map request (ioctl or mmap) fail
             let inject = kind == Kind::GrantOnDemand && cx().a(12) == 0;
+            // the release of a temporary mapping can fail too (the driver refuses the unmap ioctl): the
+            // library then panics in the middle of tearing the window down; what it already wrote must be
+            // accounted for, and nothing may be unmapped twice. The device keeps the grant, so the run
+            // ends after this operation and the device-state oracles are not applied to it.
+            let inject_unmap = kind == Kind::GrantOnDemand && !inject && cx().a(16) == 0;
+            let mut nest_second_fails = false;
             if inject {
                 injected_any = true;
-                if cx().a(2) == 0 {
-                    let k = cx().sys.xen.as_ref().unwrap().map_calls;
-                    cx().sys.xen.as_mut().unwrap().fail_map_at = Some(k);
-                } else {
-                    cx().sys.fail_mmap_at = Some((cx().sys.mmap_calls, libc::ENOMEM));
+                match cx().a(3) {
+                    0 => {
+                        let k = cx().sys.xen.as_ref().unwrap().map_calls;
+                        cx().sys.xen.as_mut().unwrap().fail_map_at = Some(k);
+                    }
+                    1 => cx().sys.fail_mmap_at = Some((cx().sys.mmap_calls, libc::ENOMEM)),
+                    _ => {
+                        // the *second* map request of the operation fails: only operations that hold one
+                        // window while making another reach it (see the nested form of `one_op`)
+                        let k = cx().sys.xen.as_ref().unwrap().map_calls + 1;
+                        cx().sys.xen.as_mut().unwrap().fail_map_at = Some(k);
+                        nest_second_fails = true;
+                    }
                 }
             }
+            if inject_unmap {
+                injected_any = true;
+                cx().sys.xen.as_mut().unwrap().fail_next_unmap = true;
+            }
+            NEST.with(|n| n.set(nest_second_fails));
             cx().sys.mmu_faults.clear();
             let (dirty_before, bytes_before) = (w.dirty_pages(), w.backing());
             cx().mode = Mode::Actor;
@@ -155,7 +180,10 @@ impl Scenario for Xen {
             cx().mode = Mode::Setup;
             cx().sys.fail_mmap_at = None;
             cx().sys.xen.as_mut().unwrap().fail_map_at = None;
-            log.push(format!("{}{}", desc, if inject { " [next map request made to fail]" } else { "" }));
+            let unmap_struck = cx().sys.xen.as_ref().unwrap().unmap_failed > 0;
+            cx().sys.xen.as_mut().unwrap().fail_next_unmap = false;
+            NEST.with(|n| n.set(false));
+            log.push(format!("{}{}{}", desc, if inject { if nest_second_fails { " [second map request of the operation made to fail]" } else { " [next map request made to fail]" } } else { "" }, if unmap_struck { " [the unmap ioctl was made to fail]" } else { "" }));
             let line = format!("{:?} region [{:#x},+{}) step {} {}", kind, w.base, w.size, step, log.last().unwrap());
             let fp = |what: &str| format!("{} {:?} {}", what, kind, kname);
             // (2) simulated MMU
@@ -169,7 +197,8 @@ impl Scenario for Xen {
                 }
             }
             match &outcome {
-                Err(m) if !inject && faults.is_empty() => cx().violate("C17", "C17/panic", fp("panic"), format!("{}: {}", line, m)),
+                Err(m) if !inject && !unmap_struck && faults.is_empty() => cx().violate("C17", "C17/panic", fp("panic"), format!("{}: {}", line, m)),
+                Err(_) if unmap_struck => cx().count("probe.panic_after_injected_unmap_failure"),
                 Err(_) if inject => cx().count("probe.panic_after_injected_map_failure"),
                 _ => {}
             }
@@ -177,7 +206,7 @@ impl Scenario for Xen {
             let dev = cx().sys.xen.as_ref().unwrap();
             let grants = dev.live_grants();
             let windows = cx().sys.live_count();
-            if grants != base_grants {
+            if grants != base_grants && !unmap_struck {
                 cx().violate("C17", "C17/grant-leak", fp(if inject { "grant left after a failed map request" } else { "grant left after an access" }), format!("{}: live grants are {:x?}, before the access they were {:x?}", line, grants, base_grants));
             }
             if windows != base_windows {
@@ -203,7 +232,8 @@ impl Scenario for Xen {
                 if let Some(p) = changed.iter().find(|p| !dirty_after.contains(p)) {
                     cx().violate("C05", "C05/unmarked-write", format!("{:?} {} left a changed byte clean", kind, kname), format!("{}: a byte of page {} changed but the region's bitmap reports the page clean", line, p));
                 }
-                if changed.is_empty() && outcome.is_err() && dirty_after != dirty_before {
+                // (only an injected *map* failure is known to strike before anything was written)
+                if changed.is_empty() && outcome.is_err() && inject && !unmap_struck && dirty_after != dirty_before {
                     cx().violate("C16", "C16/extra-mark", format!("{:?} {} marked although it wrote nothing", kind, kname), format!("{}: the access failed without changing a guest byte, but pages {:?} became dirty", line, dirty_after.difference(&dirty_before).collect::<Vec<_>>()));
                 }
                 if dirty_after != dirty_before {
@@ -224,13 +254,18 @@ impl Scenario for Xen {
                 // the model cannot know how far a failed access got
                 w.model = w.backing();
             }
+            if unmap_struck {
+                // the device kept a grant the library could not give back: nothing further can be judged
+                unmap_ever = true;
+                break;
+            }
         }
         // region drop releases the advance mapping exactly once
         let kind_s = format!("{:?}", kind);
         // a pointer guard has no lifetime: now and then one is still held when the region (the whole
         // memory object) goes away, and is released afterwards; its temporary mapping must survive
         // until then and be released then
-        let held = if kind == Kind::GrantOnDemand && cx().violations.is_empty() && cx().a(3) == 0 {
+        let held = if kind == Kind::GrantOnDemand && cx().violations.is_empty() && !unmap_ever && cx().a(3) == 0 {
             let off = gen_off(w.size).min(w.size - 1);
             let n = 1 + cx().a((w.size - off).min(5000) as u32) as usize;
             cx().mode = Mode::Actor;
@@ -268,7 +303,7 @@ impl Scenario for Xen {
                 cx().violate("C17", "C17/panic", format!("panic releasing a pointer guard after its {} region", kind_s), m);
             }
         }
-        if cx().violations.is_empty() {
+        if cx().violations.is_empty() && !unmap_ever {
             let dev = cx().sys.xen.as_ref().unwrap();
             if cx().sys.live_count() != 0 || cx().sys.anomalies.iter().any(|a| a.contains("munmap")) {
                 cx().violate("C12", if cx().sys.live_count() != 0 { "C12/leak" } else { "C12/double-unmap" }, format!("{} region drop", kind_s), format!("after dropping the region: {} live mapping(s), anomalies {:?}", cx().sys.live_count(), cx().sys.anomalies));
@@ -302,6 +337,28 @@ fn one_op(w: &mut XWorld) -> (String, &'static str, Result<(), String>) {
     let newb = |i: usize| pat(i + 31 * (stamp + 1)) ^ 0x55;
     let k = cx().a(16);
     let at = MemoryRegionAddress(off as u64);
+    if NEST.with(|n| n.get()) {
+        // one window is held (a pointer guard) while a second access asks for another one, which
+        // fails: the held window is released while the panic unwinds, and must be released fully
+        let n = 1 + cx().a(room.min(64) as u32) as usize;
+        let data: Vec<u8> = (0..n).map(newb).collect();
+        let r = res(catch(|| {
+            let s = w.region.get_slice(at, n)?;
+            let g = s.ptr_guard();
+            let r = w.region.write(&data, at);
+            drop(g);
+            r
+        }));
+        let ok = match &r {
+            Ok(Ok(m)) if *m == n => Ok(()),
+            Ok(x) => Err(format!("returned {:?}", x.as_ref().map_err(|e| format!("{:?}", e)))),
+            Err(m) => Err(m.clone()),
+        };
+        if ok.is_ok() {
+            w.model[off..off + n].copy_from_slice(&data);
+        }
+        return (format!("write(buf[{}], {}) while the pointer guard of get_slice({}, {}) is held", n, off, off, n), "write under a held guard", ok);
+    }
     match k {
         0 => {
             let n = 1 + cx().a(room.min(6000) as u32) as usize;
